@@ -214,7 +214,7 @@ UNIVERSES = [(U1, 4, 6), (U2, 3, 4), (U3, 3, 4), (U4, 3, 5), (U5, 3, 4)]
 def main():
     tier = sys.argv[1] if len(sys.argv) > 1 else 'quick'
     rep = Report('C04', tier, 'model_checking')
-    dl = deadline(tier, 200, 1500)
+    dl = deadline(tier, 900, 1500)
     tot = {'states': 0, 'transitions': 0}
     per = {}
     samples = []
